@@ -10,19 +10,29 @@ PROP = {
                   "(exactly n decimals, every 4th character from the right a comma, sign kept, integer part = decimal text of the "
                   "rounded integer part). The model is tied to the code by ~2*10^4 (value, pattern) pairs per quick run, and the "
                   "implementation is compared on each with an independent u128 oracle. "
-                  "The clause 'never panics for any built-in format code' is exploration only (partial).",
+                  "The clause 'never panics for any built-in format code': the known panic (date conversion leaving chrono's range, "
+                  "fix d30eec7) is modelled with chrono's TimeDelta / NaiveDateTime bounds; C19_date_no_panic proves that under the 11 "
+                  "built-in date/time codes whose dispatch the model covers (ids 14-22, 30, 45 of the regenerated table) EVERY value gets "
+                  "a text (chrono's rendering inside the range, the General text of the number beyond it); the other built-in codes "
+                  "(quoted literals, [$-..] prefixes, [h], sections, scientific, fractions) are exploration only (partial).",
     "level_note": "Trusted: Lean kernel + 3 standard axioms; the hand model's faithfulness as exercised by the correspondence stream; "
                   "Rust f64 FromStr/Display (shortest, positional, round trip; identity on decimal texts of <= 15 significant digits); "
                   "the dispatch of to_formatted_string (regex section splitting, date/percent detection) is modelled only for the "
                   "grammar and tied behaviourally.",
-    "expect_theorems": ["C19_fixed", "C19_percent", "C19_pattern", "C19_shape", "C19_split_in_range", "C19_general", "C19_general_cell"],
+    "expect_theorems": ["C19_fixed", "C19_percent", "C19_pattern", "C19_shape", "C19_split_in_range", "C19_general", "C19_general_cell",
+                        "C19_date_no_panic", "C19_date_out_of_range", "C19_date_checked_agrees", "C19_date_codes_covered",
+                        "C19_date_tables_match_source"],
     "rule": "boundary values (the five witnesses of DESIGN section 4 row 17, halves, carries through nines, values rounding to zero, "
             "negative zero, 15-digit values, 1e-7..1e15) x all 28 patterns (0 / 0.0..0.000000, with and without #,##, with and "
             "without %) + General + @; 560 (quick) / 30000 (thorough) random decimal texts of 1..17 significant digits, magnitudes "
             "1e-7..1e15, 30% negative, biased to runs of 9, a final 5, ..4999 / ..5000..1 tails, inner zeros, x all 28 patterns; "
             "arbitrary doubles (17 digits, any exponent) x 3 random patterns; text and numeric-looking text through text cells and "
             "through the helper; patterns outside the grammar (model: unmodelled; exploration); every format id 0..49 x 200 / 1000 "
-            "values (panic-freedom, exploration). non-trivial = the oracle was applicable (value and pattern inside the property's "
+            "values (panic-freedom, exploration); every id 0..70 x ~75 serials at and around the edges of chrono's "
+            "calendar (95051805 / -96465292 +- days and times of day), of TimeDelta (i64::MAX/1000 s), of i64, up to +-f64::MAX, and 100 "
+            "(quick) / 1000 (thorough) random serials 1e0..1e308 of both signs (op date: no panic; a date id beyond the range shows the "
+            "General text; model answers for the 11 covered ids), and excel_to_date_time_object_checked against the model and against "
+            "the panicking public function on the same serials (op edt). non-trivial = the oracle was applicable (value and pattern inside the property's "
             "quantifier and the u128 reference did not overflow) or the cell returned a value; distinct = distinct request line",
     "trusted_base": TB_COMMON + [
         "Rust f64 Display prints every finite value positionally as -?D+(.D+)? in shortest round-trip form, and FromStr accepts the documented grammar; "
@@ -31,6 +41,11 @@ PROP = {
         "fancy_regex behaviour of SECTION/ESCAPE/DATE_TIME/PERCENT/THOUSANDS/SCALE/FRACTION/NUMBER regexes on the 28 grammar patterns: "
         "modelled as 'single section, number or percent path, decimals = zeros after the point', tied behaviourally",
         "the harness oracle (u128 arithmetic on the decimal text) is independent of both the library and the Lean model",
+        "chrono 0.4.38..0.4.45: TimeDelta::try_seconds is Some iff |s| <= i64::MAX/1000, try_days/hours/minutes = checked_mul then try_seconds; "
+        "NaiveDateTime::checked_add_signed is Some iff the sum lies in -262143-01-01T00:00:00 ..= +262142-12-31T23:59:59; %Y prints 4 digits for "
+        "0..9999 and sign + at least 4 digits otherwise, %y = rem_euclid(100) (read off chrono's source; tied by the edt / date streams at the exact edges)",
+        "the driver runs the date model with Lean's native Float (IEEE binary64; floor, round half away, saturating toInt64) — nothing is proved about "
+        "that instance; the theorems hold for every FloatOps instance",
     ],
     "assumptions": [
         "numbers are finite f64 values presented by their shortest decimal text (what Cell::get_value / f64::to_string produce)",
@@ -39,9 +54,11 @@ PROP = {
         "rounding is of the shortest decimal text of the double, not of its exact binary value (1.005 under 0.00 -> 1.01, as Excel)",
     ],
     "partial_clauses": [
-        "'formatting never panics for any built-in format code and any finite number': explored by the harness only "
-        "(ids 0..49 x 200 values per quick run); date/time codes panic for serials beyond chrono's range (known finding "
-        "C19-date-format-serial-out-of-chrono-range); ids 5-8, 23-26, 41-43 have no entry in the crate's table",
+        "'formatting never panics for any built-in format code and any finite number': proved (C19_date_no_panic, every value) for the built-in "
+        "date/time ids 14-22, 30, 45 as far as the model covers the dispatch (replacement tables regenerated; regex stages = identity on these "
+        "codes, tied behaviourally); for ids 0-4, 9, 10, 49 the grammar theorems give a text for every plain decimal text; all other ids "
+        "(11-13, 27-29, 31-40, 44, 46-48, 50-70: quoted literals, locale prefixes, [h], sections, colours, scientific, fractions) are explored "
+        "by the harness only (ids 0..70 x 200 values + ~175 extreme serials per quick run); ids 5-8, 23-26, 41-43, 63-66 have no entry in the crate's table",
         "format codes outside (#,##)?0(.0+)?%? / General / @ (sections, colours, currency, scientific, fractions, dates) are not modelled; "
         "the model answers 'unmodelled' and such cases only feed the panic exploration",
         "to_formatted_string on numeric-looking strings that are not shortest forms (1.50, 1e5) normalises them; only the cell-level "
